@@ -311,7 +311,7 @@ def worker_main(args: dict) -> int:
             pass
     out["traces"] = sorted(traces)
     out["states"] = sorted(states)
-    with open(args["result"], "w") as fp:
+    with open(args["result"], "w", encoding="utf-8") as fp:
         json.dump(out, fp)
     faulthandler.cancel_dump_traceback_later()
     return 0
@@ -361,7 +361,7 @@ def handle_violation(
     path = os.path.join(
         VERIF_DIR, "replays", f"{prop}-{seed}-{run_index}.json"
     )
-    with open(path, "w") as fp:
+    with open(path, "w", encoding="utf-8") as fp:
         json.dump(replay, fp, indent=1, ensure_ascii=False)
     return {
         "run": run_index,
@@ -392,7 +392,7 @@ def load_known(prop):
         VERIF_DIR, "known_findings.json"
     )
     try:
-        with open(path) as fp:
+        with open(path, encoding="utf-8") as fp:
             data = json.load(fp)
     except FileNotFoundError:
         return []
@@ -408,7 +408,7 @@ def load_known(prop):
 
 def replay_file(path: str, quiet=False) -> int:
     """Execute a replay file in this (fresh) interpreter."""
-    with open(path) as fp:
+    with open(path, encoding="utf-8") as fp:
         replay = json.load(fp)
     want_hash = replay.get("pythonhashseed")
     want_opt = int(replay.get("python_optimize") or 0)
@@ -417,11 +417,15 @@ def replay_file(path: str, quiet=False) -> int:
             (want_hash is not None
              and os.environ.get("PYTHONHASHSEED") != str(want_hash))
             or sys.flags.optimize != want_opt
+            or sys.flags.utf8_mode
         )
         and not os.environ.get("SIMLAB_REEXEC")
     ):
         # same process environment as the run that found it
-        env = dict(os.environ, SIMLAB_REEXEC="1")
+        env = dict(os.environ, SIMLAB_REEXEC="1", PYTHONUTF8="0",
+                   LANG="C.UTF-8")
+        env.pop("LC_ALL", None)
+        env.pop("LC_CTYPE", None)
         if want_hash is not None:
             env["PYTHONHASHSEED"] = str(want_hash)
         env.pop("PYTHONOPTIMIZE", None)
@@ -522,7 +526,13 @@ def run_pool(prop, tier, seed, budget_s=None, workers=None, max_runs=None,
             PYTHONDONTWRITEBYTECODE="1",
             OMP_NUM_THREADS="1",
             OPENBLAS_NUM_THREADS="1",
+            # no UTF-8 mode: the default text encoding of a node follows its
+            # locale, which the simulator sets per node (machines differ)
+            PYTHONUTF8="0",
+            LANG="C.UTF-8",
         )
+        env.pop("LC_ALL", None)
+        env.pop("LC_CTYPE", None)
         if w % 8 == 7:
             # process-environment dimension: these workers (and the nodes
             # forked from them) run with assert statements compiled away
@@ -552,7 +562,7 @@ def run_pool(prop, tier, seed, budget_s=None, workers=None, max_runs=None,
             )
             continue
         try:
-            with open(args["result"]) as fp:
+            with open(args["result"], encoding="utf-8") as fp:
                 res = json.load(fp)
         except (OSError, ValueError) as err:
             errors.append(f"worker {w} left no result: {err} {output[-500:]}")
